@@ -161,7 +161,7 @@ func runEv(e *evCase) (impl, oracle, class string) {
 				if bytes.Equal(t.p.ID, to) {
 					t := t
 					c := proto.Clone(m)
-					go t.p.DeliverTimeout(from, c, 20*time.Second)
+					go t.p.DeliverTimeout(from, c, patience*20*time.Second)
 				}
 			}
 			return p2p.P2PMessage{}, nil
@@ -189,7 +189,7 @@ func runEv(e *evCase) (impl, oracle, class string) {
 		select {
 		case nd.chain.Events <- ev:
 			return true
-		case <-time.After(15 * time.Second):
+		case <-time.After(patience * 15 * time.Second):
 			return false
 		}
 	}
@@ -217,7 +217,7 @@ func runEv(e *evCase) (impl, oracle, class string) {
 	if expectReport {
 		select {
 		case <-sn.chain.Notify:
-		case <-time.After(10 * time.Second):
+		case <-time.After(patience * 10 * time.Second):
 		}
 		if e.dup > 1 { // a second pipeline may report as well
 			time.Sleep(150 * time.Millisecond)
